@@ -4,19 +4,18 @@
    (object kind x key type x requested algorithm) for the self-signed objects. *)
 EXTENDS Ideal, Json, SequencesExt
 
-CONSTANT Group     \* "verify" | "verifyquick" | "self"
+CONSTANT Group     \* "quick" | "thorough"
 
-KTs == IF Group = "verifyquick" THEN {"rsa2048", "p256", "p384", "ed25519", "dsa1024"} ELSE VKeyTypes
+KTs == IF Group = "quick" THEN {"rsa2048", "p256", "p384", "ed25519", "dsa1024"} ELSE VKeyTypes
 Cases == { c \in [kt : KTs, alg : VAlgs, target : Targets, mut : UNION {MutsOf(t) : t \in Targets}] : Applicable(c) }
 Out == { [c |-> c, allowed |-> SetToSeq(AllowedAccept(c)), judged |-> Judged(c)] : c \in Cases }
 
-SelfKTs == KeyTypes
-SelfCases == { [obj |-> o, kt |-> k, alg |-> a] : o \in ObjKinds, k \in SelfKTs, a \in SigAlgs \cup {"default", "bogus"} }
+SelfCases == { [obj |-> o, kt |-> k, alg |-> a] : o \in ObjKinds, k \in KeyTypes, a \in SigAlgs \cup {"default", "bogus"} }
 
-IsVerify == Group \in {"verify", "verifyquick"}
-ASSUME ~IsVerify \/ \A c \in Cases : AcceptIffUnmutated(c)
-ASSUME ~IsVerify \/ ndJsonSerialize("ideal_cases.ndjson", SetToSeq(Out))
-ASSUME ~IsVerify \/ PrintT(<<"CASES", Cardinality(Out), Cardinality({c \in Cases : Judged(c)})>>)
-ASSUME IsVerify \/ ndJsonSerialize("ideal_cases.ndjson", SetToSeq(SelfCases))
-ASSUME IsVerify \/ PrintT(<<"CASES", Cardinality(SelfCases), Cardinality({c \in SelfCases : Accepts(c.obj, c.kt, c.alg)})>>)
+\* the theorem, on every enumerated case
+ASSUME \A c \in Cases : AcceptIffUnmutated(c)
+ASSUME ndJsonSerialize("ideal_cases.ndjson", SetToSeq(Out))
+ASSUME ndJsonSerialize("ideal_self.ndjson", SetToSeq(SelfCases))
+ASSUME PrintT(<<"CASES", Cardinality(Out), Cardinality({c \in Cases : Judged(c)}),
+                Cardinality(SelfCases), Cardinality({c \in SelfCases : Accepts(c.obj, c.kt, c.alg)})>>)
 =============================================================================
